@@ -134,6 +134,62 @@ fn ls(c: &Conc, pts: &[(i32, i32)]) -> gt::LineString<f64> {
     gt::LineString::from(pts.iter().map(|(x, y)| (c.x(*x), c.x(*y))).collect::<Vec<_>>())
 }
 
+/// geo-traits views of multipoints and polylines: every point reached through the view
+fn view_events(tr: &mut Trace, c: &Conc, a: &AShape) {
+    use geo_traits::{LineStringTrait, MultiLineStringTrait, MultiPointTrait};
+    let s = match guarded(|| build(c, a)) {
+        Ok(s) => s,
+        Err(_) => return,
+    };
+    let orig = abstract_shape(c, &s);
+    fn probe<C: CoordTrait<T = f64>>(c: &Conc, v: &C) -> Value {
+        let d = v.dim();
+        let name = match d {
+            geo_traits::Dimensions::Xy => "Xy",
+            geo_traits::Dimensions::Xyz => "Xyz",
+            geo_traits::Dimensions::Xym => "Xym",
+            geo_traits::Dimensions::Xyzm => "Xyzm",
+            _ => "Unknown",
+        };
+        let mut vals = vec![];
+        for i in 0..d.size() {
+            match guarded(|| v.nth_or_panic(i)) {
+                Ok(x) => vals.push(if i < 2 { c.ax(x) } else { c.az(x) }),
+                Err(_) => vals.push(-999),
+            }
+        }
+        json!({"dim": name, "vals": vals})
+    }
+    macro_rules! mp {
+        ($m:expr) => {{
+            let m = $m;
+            let pts: Vec<Value> = MultiPointTrait::points(m).map(|p| probe(c, &p.coord().unwrap())).collect();
+            json!([pts])
+        }};
+    }
+    macro_rules! ml {
+        ($m:expr) => {{
+            let m = $m;
+            let parts: Vec<Value> = m.line_strings().map(|l| json!(l.coords().map(|p| probe(c, &p)).collect::<Vec<_>>())).collect();
+            json!(parts)
+        }};
+    }
+    let r = guarded(|| match &s {
+        Shape::Multipoint(m) => Some(mp!(m)),
+        Shape::MultipointM(m) => Some(mp!(m)),
+        Shape::MultipointZ(m) => Some(mp!(m)),
+        Shape::Polyline(m) => Some(ml!(m)),
+        Shape::PolylineM(m) => Some(ml!(m)),
+        Shape::PolylineZ(m) => Some(ml!(m)),
+        _ => None,
+    });
+    match r {
+        Ok(Some(v)) => tr.emit(json!({"ev": "view", "shape": orig.to_json(), "coords": v, "panic": false})),
+        Ok(None) => {}
+        Err(_) => tr.emit(json!({"ev": "view", "shape": orig.to_json(), "coords": [], "panic": true})),
+    }
+}
+
 /// Geometry -> Shape -> Geometry
 fn geo_to_shape(tr: &mut Trace, c: &Conc, g: gt::Geometry<f64>) {
     let (variant, gj) = geom_json(c, &g);
@@ -242,6 +298,12 @@ pub fn run(a: &Args) {
                 }
                 shape_to_geo(&mut tr, &c, &s);
                 cases += 1;
+                if k % 3 == 0 {
+                    // with NaN / no-data measures too: the view must stay consistent
+                    let s2 = gen_shape(&mut r, t, &GenCfg::small());
+                    view_events(&mut tr, &c, &s2);
+                    cases += 1;
+                }
             }
         }
         shape_to_geo(&mut tr, &c, &AShape::null());
